@@ -116,6 +116,8 @@ class NameValuePair(FieldParsableBase):
                 value = value[1:]
                 if value and value[-1:] == '"':
                     value = value[:-1]
+                if value[:1] == '"':
+                    raise InvalidValue(parser['value'], cls, 'value')
 
         return cls(parser['name'], value, quoted), parser.parsed_length
 
